@@ -259,6 +259,33 @@ def written_recipe_formulas(recipe: dict, path: Path) -> dict:
     return out
 
 
+STRING_LITERALS = ['he said "hi"', '""', '"', 'a""b"c', '"""', 'x"', "it's", "a,b", "a;b", "(", "{1,2}", "tab\there", "",
+                   "=1+2", "'q'", 'a""""b', '6" x 2"" (w x h)', 'say "hi" twice: ""x', "a&b", 'q"&"r', "#REF!", "A1:B2"]
+
+
+def written_string_formulas(path: Path) -> dict:
+    """A document whose formulas carry string literals with quotes (single, doubled, runs, next to operators), written
+    through cell.formula and read back.  -> {formula read: [written formula, row, col]}"""
+    from numbers_parser import Document
+    doc = Document()
+    t = doc.sheets[0].tables[0]
+    wrote = {}
+    for i, s in enumerate(STRING_LITERALS):
+        esc = s.replace('"', '""')
+        for j, f in enumerate([f'LEN("{esc}")', f'B1&"{esc}"&"c"', f'IF(A1="{esc}","{esc}",1)']):
+            t.write(i, j, 0)
+            t.cell(i, j).formula = f
+            wrote[(i, j)] = f
+    doc.save(str(path))
+    back = Document(str(path)).sheets[0].tables[0]
+    out = {}
+    for (i, j), f in wrote.items():
+        g = back.cell(i, j).formula
+        if g is not None and g not in out:
+            out[g] = [f, i, j]
+    return out
+
+
 def written_document_formulas(ctx: Ctx):
     """Documents written by the library in this run, then read back: references to header labels
     (plain, with operator characters, with spaces/apostrophes/other glyphs), unique and not unique
@@ -279,6 +306,15 @@ def written_document_formulas(ctx: Ctx):
                     continue
                 for f, where in got.items():
                     forms.setdefault(f, [recipe] + where)
+        recipe = {"label": None, "string_literals": True}
+        try:
+            got = written_string_formulas(ctx.tmp / "c18_written_strings.numbers")
+        except Exception as e:  # noqa: BLE001
+            ctx.dist("written_document_recipe_failed")
+            ctx.notes.append(f"written-document recipe {recipe} failed: {type(e).__name__}: {e}"[:300])
+            got = {}
+        for f, where in got.items():
+            forms.setdefault(f, [recipe] + where)
     return forms
 
 
@@ -442,6 +478,12 @@ def run(ctx: Ctx) -> int:
             ctx.count("reader_acceptance")
             label = where[0].get("label") if src == "written" else None
             r = oracle_reader_formula(T, f, OPERATOR_MAP, label)
+            if r is None and src == "written" and where[0].get("string_literals"):
+                # the text was written through the tokenizer: what the reader prints for it must cut into as many tokens
+                # (one per literal) - a literal printed with its quotes unescaped would be split or glued
+                a, b = tok_impl(T, where[1])[1], tok_impl(T, f)[1]
+                if a is not None and b is not None and len(a) != len(b):
+                    r = ("reader-string-split", f"written {where[1]!r} ({len(a)} tokens) is read as {f!r} ({len(b)} tokens)")
             if r:
                 fail(ctx, r[0], {"kind": "reader", "source": src, "where": where, "cps": [ord(c) for c in f]}, r[1])
     texts = sorted(set(forms) | set(wforms))
